@@ -1322,34 +1322,34 @@ theorem operRegRec_refines (D : Dims) (T : Tables α) (s : St α) (hw : WF D s) 
     generalize getD .ref D s r.tgt tinfo = p at *
     rw [hg]
     simp only []
-    obtain ⟨hr1, hr2⟩ := regionArr_refines D T p.1 hw1 r.rn
-    rw [← hr1]
-    cases hq : regionArr .ref D T p.1 r.rn with
+    cases hs : sget T.dbl r.src with
     | none => simp
-    | some q =>
-      obtain ⟨hw2, hl2, ha2⟩ := hr2 q hq
-      simp only [Option.map_some]
-      have hact : (cSt q.1).act = q.1.act := rfl
-      rw [hact, ← ha2, regEmpty_impl q.1.act q.2 r.rv (by rw [hl2, hw2.act])]
-      split
-      · simp only [Option.map_some]
-        exact ⟨trivial, fun q' hq' => by cases hq'; exact hw2⟩
-      · cases hs : sget T.dbl r.src with
-        | none => simp
-        | some sinfo =>
-          simp only []
-          obtain ⟨hw3, hl3⟩ := getD_wf D q.1 r.src sinfo hw2
-          have ha3 := getD_act .ref D q.1 r.src sinfo
-          have hg3 := getD_impl D q.1 r.src sinfo hw2
-          generalize getD .ref D q.1 r.src sinfo = u at *
-          rw [hg3]
-          simp only []
-          cases hf : operateFn r.fn (operAlpha r.fn tinfo r.a) (operBeta r.fn tinfo r.b) with
+    | some sinfo =>
+      simp only []
+      obtain ⟨hw3, hl3⟩ := getD_wf D p.1 r.src sinfo hw1
+      have ha3 := getD_act .ref D p.1 r.src sinfo
+      have hg3 := getD_impl D p.1 r.src sinfo hw1
+      generalize getD .ref D p.1 r.src sinfo = u at *
+      rw [hg3]
+      simp only []
+      obtain ⟨hr1, hr2⟩ := regionArr_refines D T u.1 hw3 r.rn
+      rw [← hr1]
+      cases hq : regionArr .ref D T u.1 r.rn with
+      | none => simp
+      | some q =>
+        obtain ⟨hw2, hl2, ha2⟩ := hr2 q hq
+        simp only [Option.map_some]
+        have hact : (cSt q.1).act = q.1.act := rfl
+        rw [hact, ← ha2, regEmpty_impl q.1.act q.2 r.rv (by rw [hl2, hw2.act])]
+        split
+        · simp only [Option.map_some]
+          exact ⟨trivial, fun q' hq' => by cases hq'; exact hw2⟩
+        · cases hf : operateFn r.fn (operAlpha r.fn tinfo r.a) (operBeta r.fn tinfo r.b) with
           | none => simp
           | some f =>
             simp only []
-            rw [← ha1, ← ha2, ← ha3]
-            exact tail_regD D u.1 hw3 _ _ q.2 r.rv hl2 u.2 p.2 hl3 hl1
+            rw [← ha1, ← ha3, ← ha2]
+            exact tail_regD D q.1 hw2 _ _ q.2 r.rv hl2 u.2 p.2 hl3 hl1
 
 /-! ## keywords, sections -/
 
